@@ -13,7 +13,8 @@ literal value) and the placement class that produced it. Units are built from th
   arrow      ts/js: `const name = (params) => {` form
 
 plus hand-written variants of the call / literal families with the construct in a multi-line call, a multi-line
-collection literal, a multi-line method chain, or preceded by other code on the same line (prefix).
+collection literal, a multi-line method chain, or preceded by other code on the same line (prefix); and, for the call
+families, call_layout(): the same call in every layout over physical lines (ARG_LAYOUTS / METHOD_LAYOUTS).
 """
 from __future__ import annotations
 
@@ -38,6 +39,7 @@ class Truth:
     name: str | None = None
     value: float | None = None
     place: str = "plain"
+    callee: int = -1  # line that holds the called name when it is not the first line of the call expression (method of a chain); -1: rel
 
 
 @dataclass
@@ -54,6 +56,8 @@ class Unit:
                 t.rel += n
             if t.last >= at:
                 t.last += n
+            if t.callee >= 0 and t.callee >= at:
+                t.callee += n
 
 
 NAME = re.compile(r"(?:def|class|function|fn|struct)\s+([A-Za-z_]\w*)")
@@ -113,7 +117,7 @@ def variant(fam, lang, u, var) -> Unit | None:
                 ([hdr, "    console.log(", "        'value',", f"        {a},", "    );", f"    return {a};", "}"], [T(1, 4, "multiline-call")]),
                 ([hdr, f"    const b{u} = {a}; console.log(b{u});", f"    return b{u};", "}"], [T(1, 1, "prefix")]),
                 ([hdr, f"    for (const i{u} of {a}) {{", f"        if (i{u}) {{", f"            console.error(i{u});", "        }", "    }", "}"], [T(3, 3, "deep")]),
-                ([hdr, "    console", f"        .warn({a});", "}"], [T(1, 2, "chain")]),
+                ([hdr, "    console", f"        .warn({a});", "}"], [T(1, 2, "chain", callee=2)]),
             ],
         }
     else:
@@ -125,21 +129,21 @@ def variant(fam, lang, u, var) -> Unit | None:
                 ([f"fn fn_{u}({a}: i32) -> i32 {{", f"    if {a} > 0 {{", f"        for i{u} in 0..{a} {{", f"            use_{u}(i{u} + {m});", "        }", "    }", f"    {a}", "}"], [T(3, 3, "deep", value=m)]),
             ],
             "unwrap": [
-                ([f"fn fn_{u}(x{u}: Option<i32>) -> i32 {{", f"    let v{u} = x{u}", f"        .map(|q{u}| q{u})", "        .unwrap();", f"    v{u}", "}"], [T(1, 3, "chain")]),
+                ([f"fn fn_{u}(x{u}: Option<i32>) -> i32 {{", f"    let v{u} = x{u}", f"        .map(|q{u}| q{u})", "        .unwrap();", f"    v{u}", "}"], [T(1, 3, "chain", callee=3)]),
                 ([f"fn fn_{u}(x{u}: Option<i32>) -> i32 {{", f"    let w{u} = 0; let v{u} = x{u}.unwrap();", f"    v{u} + w{u}", "}"], [T(1, 1, "prefix")]),
                 ([f"fn fn_{u}(x{u}: Option<i32>) -> i32 {{", f"    if x{u}.is_some() {{", f"        for i{u} in 0..3 {{", f"            use_{u}(i{u}, x{u}.unwrap());", "        }", "    }", "    0", "}"], [T(3, 3, "deep")]),
                 ([f"fn fn_{u}(x{u}: Option<i32>) -> i32 {{", f"    x{u}.unwrap()", "}"], [T(1, 1, "tail-expression")]),
                 # the receiver starts far to the right of where the continuation lines end (a column taken from one line
                 # and applied to another falls outside the line)
                 ([f"fn fn_{u}(x{u}: Option<i32>) -> i32 {{", f"    let resolved_value_with_a_long_name_{u} = compute_the_optional_{u}(x{u}, x{u})", "    .unwrap();",
-                  f"    resolved_value_with_a_long_name_{u}", "}"], [T(1, 2, "chain-long-receiver")]),
+                  f"    resolved_value_with_a_long_name_{u}", "}"], [T(1, 2, "chain-long-receiver", callee=2)]),
                 ([f"fn fn_{u}(x{u}: Option<i32>) -> i32 {{", f"    let v{u} = x{u}.expect(\"present{u}\");", f"    v{u}", "}"], [Truth(fam, "unwrap-abuse.expect-call", 1, 1, place="plain")]),
             ],
             "clone": [
-                ([f"fn fn_{u}(items{u}: Vec<String>) {{", f"    for it{u} in items{u}.iter() {{", f"        let c{u} = it{u}", "            .clone();", f"        use_{u}(c{u});", "    }", "}"], [T(2, 3, "chain")]),
+                ([f"fn fn_{u}(items{u}: Vec<String>) {{", f"    for it{u} in items{u}.iter() {{", f"        let c{u} = it{u}", "            .clone();", f"        use_{u}(c{u});", "    }", "}"], [T(2, 3, "chain", callee=3)]),
                 ([f"fn fn_{u}(items{u}: Vec<String>) {{", f"    for it{u} in items{u}.iter() {{", f"        let n{u} = 0; let c{u} = it{u}.clone();", f"        use_{u}(c{u}, n{u});", "    }", "}"], [T(2, 2, "prefix")]),
                 ([f"fn fn_{u}(items{u}: Vec<String>) {{", f"    for it{u} in items{u}.iter() {{", f"        let copy_of_the_current_item_{u} = select_the_item_{u}(it{u}, it{u})", "  .clone();",
-                  f"        use_{u}(copy_of_the_current_item_{u});", "    }", "}"], [T(2, 3, "chain-long-receiver")]),
+                  f"        use_{u}(copy_of_the_current_item_{u});", "    }", "}"], [T(2, 3, "chain-long-receiver", callee=3)]),
                 ([f"fn fn_{u}(items{u}: Vec<String>) {{", f"    while more_{u}() {{", f"        if ready_{u}() {{", f"            use_{u}(items{u}.clone());", "        }", "    }", "}"], [T(3, 3, "deep")]),
             ],
             "blocking": [
@@ -155,6 +159,110 @@ def variant(fam, lang, u, var) -> Unit | None:
 
 
 RULES = dict(seeds.FAMILY_RULE)
+
+
+# ------------------------------------------------------------------------------------ layouts of a call over physical lines
+
+# How a call is laid out over physical lines, independent of which call it is.  Calls with an argument list:
+ARG_LAYOUTS = (
+    "exploded",       # head( / one argument per line / closing parenthesis on its own line
+    "hanging",        # head(arg0, / further arguments aligned under arg0 / the last one carries the closing parenthesis
+    "dedent-close",   # behind other code on its line; continuation lines shorter than the column where the call starts
+    "nested-arg",     # exploded call that is itself an argument of an exploded outer call (starts on a continuation line)
+    "nested-single",  # single-line call on a continuation line of an exploded outer call
+    "string-arg",     # the call spans two lines only because a string argument does
+)
+# Method calls (receiver.method()):
+METHOD_LAYOUTS = (
+    "receiver-args",  # the receiver is a call whose arguments continue on the next line: pick(x, / x).method()
+    "nested-single",  # single-line call on a continuation line of an exploded outer call
+    "nested-chain",   # receiver / .method() on two continuation lines of an exploded outer call
+    "chain-dedent",   # long first line, `.method()` alone at column 0 of the next line
+)
+
+
+def layouts(fam, lang):
+    if fam == "print" and lang in ("py", "ts", "js") or fam == "blocking" and lang == "rs":
+        return ARG_LAYOUTS
+    if fam in ("unwrap", "clone") and lang == "rs":
+        return METHOD_LAYOUTS
+    return ()
+
+
+def call_layout(fam, lang, u, layout, tail=True) -> Unit | None:
+    """The family's call in layout number `layout` (index into layouts(fam, lang)); `tail`: a statement follows the call
+    inside the function.  Truth: rel = first line of the call expression, last = its last line, callee = line of the
+    called name when that is a different line."""
+    names = layouts(fam, lang)
+    if not names:
+        return None
+    name = names[layout % len(names)]
+    a = f"a{u}"
+    ind = "    "
+    place = "layout-" + name
+    if names is ARG_LAYOUTS:
+        if lang == "py":
+            hdr, close, pre, head, post = [f"def fn_{u}({a}):"], [], "", "print", ""
+            args, plain, other = [f"'value{u}'", a, "sep=' '"], a, f"chosen_value_with_a_long_name_{u} = {a}; "
+            tails = [f"{ind}return {a}"]
+            strarg = (f'"""first{u}', f'second{u}"""')
+        elif lang in ("ts", "js"):
+            hdr, close, pre, post = [f"function fn_{u}({a}{_ann(lang, 'any')}) {{"], ["}"], "", ";"
+            head = "console." + ("log", "error", "warn", "info", "debug", "log")[layout % 6]
+            args, plain, other = [f"'value{u}'", a, f"{a} + 1"], a, f"const chosen_value_with_a_long_name_{u} = {a}; "
+            tails = [f"{ind}return {a};"]
+            strarg = (f"`first{u}", f"second{u}`")
+        else:
+            hdr, close, pre, head, post = [f"async fn fn_{u}(d{u}: String) {{"], ["}"], f"let s{u} = ", "std::fs::write", ";"
+            args, plain, other = [f'"f{u}"', f"d{u}"], "0", f"let chosen_value_with_a_long_name_{u} = 0; "
+            tails = [f"{ind}use_{u}(s{u});"]
+            strarg = (f'"first{u}', f'second{u}"')
+        k = len(hdr)
+        if name == "exploded":
+            body = [f"{ind}{pre}{head}("] + [f"{ind}    {x}," for x in args] + [f"{ind}){post}"]
+            rel, last = k, k + len(args) + 1
+        elif name == "hanging":
+            first = f"{ind}{pre}{head}("
+            al = " " * len(first)
+            body = [f"{first}{args[0]},"] + [f"{al}{x}," for x in args[1:-1]] + [f"{al}{args[-1]}){post}"]
+            rel, last = k, k + len(args) - 1
+        elif name == "dedent-close":
+            body = [f"{ind}{other}{pre}{head}({args[0]},", "  " + ", ".join(args[1:]), f"){post}"]
+            rel, last = k, k + 2
+        elif name == "nested-arg":
+            body = [f"{ind}{pre}use_{u}(", f"{ind}    {plain},", f"{ind}    {head}("] + [f"{ind}        {x}," for x in args] + [f"{ind}    ),", f"{ind}){post}"]
+            rel, last = k + 2, k + 2 + len(args) + 1
+        elif name == "nested-single":
+            body = [f"{ind}{pre}use_{u}(", f"{ind}    {plain},", f"{ind}    {head}({', '.join(args)}),", f"{ind}){post}"]
+            rel = last = k + 2
+        else:
+            body = [f"{ind}{pre}{head}({strarg[0]}", f"{strarg[1]}, {', '.join(args[1:])}){post}"]
+            rel, last = k, k + 1
+        callee = -1
+    else:
+        if fam == "unwrap":
+            hdr, close = [f"fn fn_{u}(x{u}: Option<i32>) {{"], ["}"]
+            recv, meth, var = f"x{u}", ".unwrap()", f"v{u}"
+        else:
+            hdr, close = [f"fn fn_{u}(items{u}: Vec<String>) {{", f"    for it{u} in items{u}.iter() {{"], ["    }", "}"]
+            recv, meth, var, ind = f"it{u}", ".clone()", f"c{u}", "        "
+        tails = [f"{ind}use_{u}({var});"]
+        k = len(hdr)
+        if name == "receiver-args":
+            body = [f"{ind}let {var} = pick_{u}({recv},", f"{ind}    {recv}){meth};"]
+            rel, last, callee = k, k + 1, k + 1
+        elif name == "nested-single":
+            body = [f"{ind}let {var} = wrap_{u}(", f"{ind}    0,", f"{ind}    {recv}{meth},", f"{ind});"]
+            rel, last, callee = k + 2, k + 2, -1
+        elif name == "nested-chain":
+            body = [f"{ind}let {var} = wrap_{u}(", f"{ind}    0,", f"{ind}    {recv}", f"{ind}        {meth},", f"{ind});"]
+            rel, last, callee = k + 2, k + 3, k + 3
+        else:
+            body = [f"{ind}let resolved_value_with_a_long_name_{u} = pick_{u}({recv}, {recv})", f"{meth};"]
+            tails = [f"{ind}use_{u}(resolved_value_with_a_long_name_{u});"]
+            rel, last, callee = k, k + 1, k + 1
+    lines = hdr + body + (tails if tail else []) + close
+    return Unit(lines, [Truth(fam, RULES[fam], rel, last, place=place, callee=callee)], fam, [place])
 
 
 def has_variant(fam, lang):
@@ -338,6 +446,8 @@ def build_unit(spec, lang, u) -> Unit:
     unit = None
     if spec.get("form") == "variant" and has_variant(fam, lang):
         unit = variant(fam, lang, u, spec.get("var", 0))
+    elif spec.get("form") == "layout":
+        unit = call_layout(fam, lang, u, spec.get("layout", 0), spec.get("tail", True))
     if unit is None:
         unit = from_seed(fam, lang, u, spec.get("var", 0))
     is_func = fam in FUNC_FAMS
@@ -368,7 +478,7 @@ def compose(lang, units, header, gap, final_nl=True):
         base = len(lines)
         lines.extend(un.lines)
         for t in un.truths:
-            truths.append(Truth(t.fam, t.rule, base + t.rel + 1, base + t.last + 1, t.name, t.value, t.place))
+            truths.append(Truth(t.fam, t.rule, base + t.rel + 1, base + t.last + 1, t.name, t.value, t.place, base + t.callee + 1 if t.callee >= 0 else -1))
     return "\n".join(lines) + ("\n" if final_nl else ""), truths
 
 
